@@ -24,10 +24,10 @@ import (
 )
 
 var c19Personalities = []string{"silent", "answers", "inbound-chatty", "alive-after-probe", "reply-outstanding", "outbound-chatty", "answers-then-silent",
-	"own-write-after-each-timeout", "send-inside-probe-window"}
+	"own-write-after-each-timeout", "send-inside-probe-window", "alive-after-probe-slow-handler"}
 
 func TestC19Linktest(t *testing.T) {
-	ev.Rule("(role, threshold 1..4, suppression on/off, interval 40/60/100 ms, T6 50/80 ms) x peer personality: silent; answers every probe; chatty (sends data every interval/2, never answers); alive only after each probe (a data frame 5 ms after every Linktest.req, never answers); reply outstanding (a reply-expected send in flight, peer silent, T3 2 s); local fire-and-forget traffic every interval/2 with a silent peer; answers for a while then falls silent; oracle (virtual time): a dead silent link is dropped at exactly threshold x (interval + T6) after its last sign of life and after exactly `threshold` probes; a link showing life per the suppression rules is never dropped over 6 x that; with suppression no probe is sent while traffic flowed within the last interval or a reply is outstanding; without it one probe per interval and every timeout counts; non-trivial = the personality shows life at least once and the run contains at least one probe timeout")
+	ev.Rule("(role, threshold 1..4, suppression on/off, interval 40/60/100 ms, T6 50/80 ms) x peer personality: silent; answers every probe; chatty (sends data every interval/2, never answers); alive only after each probe (a data frame 5 ms after every Linktest.req, never answers) - with a data handler that returns at once or only after T6 + 20 ms; reply outstanding (a reply-expected send in flight, peer silent, T3 2 s); local fire-and-forget traffic every interval/2 with a silent peer; answers for a while then falls silent; oracle (virtual time): a dead silent link is dropped at exactly threshold x (interval + T6) after its last sign of life and after exactly `threshold` probes; a link showing life per the suppression rules is never dropped over 6 x that; with suppression no probe is sent while traffic flowed within the last interval or a reply is outstanding; without it one probe per interval and every timeout counts; non-trivial = the personality shows life at least once and the run contains at least one probe timeout")
 	vt.Bubble(t, func(t *testing.T) {
 		vt.CheckBubble(t, 1500, 60000, func(rt *rapid.T) { runC19(rt) })
 	})
@@ -46,7 +46,12 @@ func runC19(rt *rapid.T) {
 	if err != nil {
 		rt.Fatalf("VERIF-INFRA: %v", err)
 	}
-	w.conn.AddDataMessageHandler(func(*hsms.DataMessage, hsms.SECS2Endpoint) {})
+	var handlerDelay atomic.Int64 // the application's data handler takes this long (it runs inline on the receive path)
+	w.conn.AddDataMessageHandler(func(*hsms.DataMessage, hsms.SECS2Endpoint) {
+		if d := handlerDelay.Load(); d > 0 {
+			time.Sleep(time.Duration(d))
+		}
+	})
 	var p *netsim.Peer
 	var stop atomic.Bool
 	var bg sync.WaitGroup // harness goroutines of this case: all must have exited before the case ends
@@ -180,8 +185,13 @@ func runC19(rt *rapid.T) {
 			sawTimeout = true
 		}
 		stop.Store(true)
-	case "alive-after-probe":
+	case "alive-after-probe", "alive-after-probe-slow-handler":
 		showsLife = true
+		if pers == "alive-after-probe-slow-handler" {
+			// the frame that shows life arrives 5 ms after the probe, but the application takes longer
+			// than the rest of the T6 window to handle it: the ARRIVAL is the sign of life
+			handlerDelay.Store(int64(T6 + 20*time.Millisecond))
+		}
 		p.SetOnFrame(func(f e37.Frame) {
 			if f.SType == e37.LinktestReq {
 				bg.Add(1)
@@ -367,4 +377,174 @@ func runC19(rt *rapid.T) {
 		eof, at, _ := p.EOF()
 		return map[string]any{"role": role, "personality": pers, "threshold": threshold, "suppression": suppress, "interval": I.String(), "T6": T6.String(), "probes": pt, "dropped": eof, "droppedAt": at.Sub(t0).String()}
 	}, "c19b:"+pers, fmt.Sprintf("c19b:suppress:%v", suppress), fmt.Sprintf("c19b:threshold:%d", threshold), "c19b:role:"+role)
+}
+
+// TestC19AfterFailedSends: dead-link detection must keep working after sends that ended badly on an
+// EARLIER generation. Whatever bookkeeping the suppression rules read (replies outstanding, last
+// sent / received instants) must be back to neutral once those calls have returned: on the next
+// generation a silent peer is probed and dropped on exactly the schedule of a fresh connection.
+func TestC19AfterFailedSends(t *testing.T) {
+	ev.Rule("(role, threshold 1..3, suppression on/off, interval 500 ms, T6 50 ms, write timeout 30 ms, T3 80 ms) generation 1: 1-3 reply-expected sends each ending in a drawn way - write error (peer stopped reading: the write deadline fires), peer reset while the reply is awaited, T3 timeout, caller cancellation, peer Reject - then the generation is ended (by the failure itself or a peer reset) and the library reconnects; generation 2: the peer selects and stays silent. Oracle (virtual time): every call has returned an error; the in-flight gauge is 0; probes are written at I, I+(I+T6), ... after the select and the link is dropped exactly threshold x (I+T6) after it, after exactly `threshold` probes - the schedule of a fresh connection; non-trivial = at least one send ended in a write error or a reset")
+	vt.Bubble(t, func(t *testing.T) {
+		vt.CheckBubble(t, 800, 40000, func(rt *rapid.T) {
+			active := rapid.Bool().Draw(rt, "active")
+			threshold := rapid.IntRange(1, 3).Draw(rt, "threshold")
+			suppress := rapid.IntRange(0, 3).Draw(rt, "suppress") > 0
+			// (I is longer than everything generation 1 does - at most 2 x T3 + WT: no probe falls due while a
+			// write is stalled, which a bubble could not schedule)
+			const I, T6, WT, T3 = 500 * time.Millisecond, 50 * time.Millisecond, 30 * time.Millisecond, 80 * time.Millisecond
+			w, err := newWorld(worldOpt{active: active, connOpts: []hsms.ConnOption{hsms.WithLinktestInterval(I), hsms.WithT6(T6), hsms.WithLinktestFailThreshold(threshold),
+				hsms.WithLinktestSuppression(suppress), hsms.WithT3(T3), hsms.WithT7(time.Hour), hsms.WithT8(time.Hour), hsms.WithT5(10 * time.Millisecond),
+				hsms.WithReconnectBackoff(10*time.Millisecond, 1), hsms.WithWriteTimeout(WT), hsms.WithCloseTimeout(time.Second)}})
+			if err != nil {
+				rt.Fatalf("VERIF-INFRA: %v", err)
+			}
+			w.conn.AddDataMessageHandler(func(*hsms.DataMessage, hsms.SECS2Endpoint) {})
+			var peers []*netsim.Peer
+			var hist []string
+			t00 := time.Now()
+			logf := func(f string, a ...any) { hist = append(hist, fmt.Sprintf("+%v ", time.Since(t00))+fmt.Sprintf(f, a...)) }
+			defer func() {
+				_ = w.conn.Close()
+				for _, p := range peers {
+					p.Close()
+				}
+				if w.ln != nil {
+					_ = w.ln.Close()
+				}
+				synctest.Wait()
+			}()
+			fail := func(f string, a ...any) {
+				tr := ""
+				if len(peers) > 0 {
+					tr = peers[len(peers)-1].Transcript()
+				}
+				rt.Fatalf("C19 violated (active=%v threshold=%d suppression=%v): %s\nhistory:\n  %s\nwire of the last generation:\n%s", active, threshold, suppress, fmt.Sprintf(f, a...), strings.Join(hist, "\n  "), tr)
+			}
+			if err := w.conn.Open(context.Background(), hsms.OpenBackground); err != nil {
+				rt.Fatalf("VERIF-INFRA: %v", err)
+			}
+			up := func() *netsim.Peer {
+				p, err := w.peerUp(2 * time.Second)
+				if err != nil {
+					fail("the link was not re-established: %v", err)
+				}
+				peers = append(peers, p)
+				if err := w.selectAsPeer(p, 0x5e1ec7+uint32(len(peers))); err != nil {
+					fail("select: %v", err)
+				}
+				return p
+			}
+			p := up()
+			n := rapid.IntRange(1, 3).Draw(rt, "sends")
+			hard := false
+			for i := 0; i < n; i++ {
+				how := rapid.SampledFrom([]string{"write-error", "write-error", "reset-awaiting-reply", "t3", "cancel", "reject"}).Draw(rt, "ending")
+				ctx, cancel := ctxT(time.Second)
+				if how == "cancel" {
+					cancel()
+					ctx, cancel = ctxT(20 * time.Millisecond)
+				}
+				done := make(chan error, 1)
+				p.Take()
+				if how == "write-error" {
+					p.C.SetInboundWindow(3)
+					p.C.StallInbound(true)
+				}
+				go func() {
+					_, e := w.conn.SendDataMessage(ctx, 1, 1, true, secs2.A(fmt.Sprintf("doomed-%d", i)))
+					done <- e
+				}()
+				synctest.Wait()
+				linkDied := false
+				switch how {
+				case "write-error":
+					time.Sleep(WT + time.Millisecond)
+					linkDied, hard = true, true
+				case "reset-awaiting-reply":
+					p.C.Reset()
+					_ = p.C.Close()
+					linkDied, hard = true, true
+				case "t3":
+					time.Sleep(T3 + time.Millisecond)
+				case "cancel":
+					time.Sleep(21 * time.Millisecond)
+				case "reject":
+					for _, rf := range p.Take() {
+						if rf.F.IsData() {
+							_ = p.Send(e37.Frame{Session: rf.F.Session, B2: rf.F.B2, B3: 1, SType: e37.RejectReq, Sys: rf.F.Sys})
+						}
+					}
+				}
+				synctest.Wait()
+				var e error
+				select {
+				case e = <-done:
+				default:
+					time.Sleep(T3 + WT)
+					synctest.Wait()
+					select {
+					case e = <-done:
+					default:
+						fail("send %d (%s) has not returned", i, how)
+					}
+				}
+				cancel()
+				logf("send %d ended by %s: %v", i, how, e)
+				if e == nil {
+					fail("send %d (%s) reported success", i, how)
+				}
+				if linkDied {
+					p.C.StallInbound(false)
+					synctest.Wait()
+					p = up()
+					logf("reconnected (generation %d)", len(peers))
+				}
+			}
+			// end the generation the sends ran on (if it is still up) and start a clean one
+			if eof, _, _ := p.EOF(); !eof {
+				p.C.Reset()
+				_ = p.C.Close()
+				synctest.Wait()
+			}
+			if g := w.conn.Metrics().DataMsgInflightCount(); g != 0 {
+				fail("every send has returned, yet the in-flight gauge (which suppresses linktest probes) is %d", g)
+			}
+			p = up()
+			if active && w.ln != nil {
+				_ = w.ln.Close()
+			}
+			t0 := time.Now()
+			logf("final generation selected; the peer now stays silent")
+			B := time.Duration(threshold) * (I + T6)
+			time.Sleep(4*B + time.Second)
+			synctest.Wait()
+			eof, when, _ := p.EOF()
+			var probes []time.Duration
+			for _, rf := range p.Frames() {
+				if rf.F.SType == e37.LinktestReq {
+					probes = append(probes, rf.At.Sub(t0))
+				}
+			}
+			if !eof {
+				fail("a silent peer on the generation after the failed sends was never dropped (probes at %v; a fresh connection drops it at +%v)", probes, B)
+			}
+			if d := when.Sub(t0); d != B {
+				fail("the silent peer was dropped at +%v, a fresh connection drops it at +%v (probes at %v)", d, B, probes)
+			}
+			if len(probes) != threshold {
+				fail("%d probes before the drop (at %v), the threshold is %d", len(probes), probes, threshold)
+			}
+			for k, at := range probes {
+				if want := I + time.Duration(k)*(I+T6); at != want {
+					fail("probe %d at +%v, a fresh connection probes at +%v", k, at, want)
+				}
+			}
+			role := "passive"
+			if active {
+				role = "active"
+			}
+			ev.Case(hard, strings.Join(hist, "|")+fmt.Sprint(active, threshold, suppress), func() any { return hist }, "c19c:role:"+role, fmt.Sprintf("c19c:suppression:%v", suppress))
+		})
+	})
 }
